@@ -23,7 +23,7 @@ clause → theorem
 * blocking and async readers are the same function ............. `C02.reader_twins_agree`
 * the checks the model performs are the checks in the source .... `C02.parser_checks`, `C02.reader_shapes`
 * one-message-per-buffer entry points use the exact parsers ..... `C02.entry_points_exact`
-* a failed / timed-out frame read ends the connection ........... `C02.read_loops_never_resume` (why: `C02.resume_inside_frame_accepts_embedded`)
+* a failed / timed-out frame read ends the connection ........... `C02.read_loops_never_resume`, `C02.client_read_loop_never_resumes` (why: `C02.resume_inside_frame_accepts_embedded`)
 
 `Outcome` has explicit `panic` and `abort` constructors (integer overflow with overflow-checks on,
 slice index out of range, `vec![0; n]` capacity overflow, allocation failure), so "never crashes" is
@@ -220,6 +220,12 @@ frame read (a read timeout — `WouldBlock`/`TimedOut` — included) leaves the 
 `return` otherwise; the async server's `timeout(..)` arm returns). A loop that `continue`s after an error, or any other
 arm, is extracted as `false`. -/
 theorem read_loops_never_resume : Gen.serverReadArms = true ∧ Gen.asyncReadTimeoutCloses = true := by decide
+
+/-- The same for the blocking `Client`'s response loop: every error of `read_message` fails the pending calls and leaves
+the loop. (At /repo 7face75 this is FALSE: an `Interrupted` error `continue`s, and `read_message` can return it after
+having consumed part of a frame — finding F11, `fixes/F11-client-eintr-resync.diff`; the harness re-finds it with a real
+signal as `parse.net.client.resync_inside_frame_after_eintr`.) -/
+theorem client_read_loop_never_resumes : Gen.clientReadLoopEnds = true := by decide
 
 /-! ### Why the checked / fallible forms are needed: witnesses for the unchecked forms
 (these are the inputs F1 and F2 of DESIGN.md §9). -/
